@@ -10,3 +10,73 @@ package p2p
 //@   props C08 C20
 //@ defers (*MConnection).sendRoutine: _recover
 //@   props C08 C20
+
+// ---------------------------------------------------------------------------------------------
+// encrypted transport framing (C20). nacl secretbox/box and the socket are assumed; what is proved is the
+// byte accounting and the nonce / authentication discipline around them.
+
+//@ func (*SecretConnection).Read
+//@   props C20
+//@   requires sc != nil && sc.conn != nil && sc.recvNonce != nil && sc.shrSecret != nil
+//@   ensures  [buffered-bytes-are-reported] old(len(sc.recvBuffer)) > 0 ==> err == nil && n == ite(len(data) < old(len(sc.recvBuffer)), len(data), old(len(sc.recvBuffer)))
+//@   ensures  [buffer-keeps-the-undelivered-rest] old(len(sc.recvBuffer)) > 0 ==> len(sc.recvBuffer) == old(len(sc.recvBuffer)) - n && calls(readDecode) == 0
+//@   ensures  [one-frame-per-call] old(len(sc.recvBuffer)) == 0 ==> calls(readDecode) == 1
+//@   ensures  [frame-bytes-split-between-caller-and-buffer] old(len(sc.recvBuffer)) == 0 && err == nil ==> 0 <= n && n <= len(data) && n + len(sc.recvBuffer) <= 1024
+//@   ensures  [error-delivers-nothing] err != nil ==> n == 0
+
+//@ func readBufSize
+//@   props C20
+//@   pure
+//@   ensures result == 1042
+
+//@ func (*SecretConnection).readDecode
+//@   props C20
+//@   requires sc != nil && sc.conn != nil && sc.recvNonce != nil && sc.shrSecret != nil
+//@   atcall Open assert [decrypt-with-receive-nonce-and-shared-secret] arg2 == sc.recvNonce && arg3 == sc.shrSecret
+//@   atcall incr2Nonce assert [advance-the-receive-nonce] arg_nonce == sc.recvNonce
+//@   ensures  [nonce-advances-only-on-authentic-frame] result1 == nil ==> calls(incr2Nonce) == 1 && calls(Open) == 1 && len(result0) == 1026
+//@   ensures  [tampered-frame-is-an-error] result1 != nil ==> calls(incr2Nonce) == 0
+
+//@ func (*SecretConnection).writeEncode
+//@   props C20
+//@   requires sc != nil && sc.sendNonce != nil && sc.shrSecret != nil && len(chunk) <= 1024
+//@   atcall Seal assert [encrypt-with-send-nonce-and-shared-secret] arg2 == sc.sendNonce && arg3 == sc.shrSecret
+//@   atcall incr2Nonce assert [advance-the-send-nonce] arg_nonce == sc.sendNonce
+//@   ensures  [one-nonce-step-per-frame] calls(incr2Nonce) == 1 && calls(Seal) == 1 && len(result) == 1042
+
+//@ func (*SecretConnection).Write
+//@   props C20
+//@   requires sc != nil && sc.conn != nil && sc.sendNonce != nil && sc.shrSecret != nil
+//@   atcall writeEncode assert [chunks-of-at-most-1024-bytes-in-order] 0 < len(arg_chunk) && len(arg_chunk) <= 1024 && n + len(arg_chunk) + len(data) == old(len(data))
+//@   ensures  [all-bytes-accounted] err == nil ==> n == len(data)
+//@   ensures  [partial-write-reports-sent-prefix] 0 <= n && n <= len(data)
+//@   loop 0 invariant 0 <= n && n + len(data) == old(len(data))
+
+//@ ghost gChallengeOK Bool
+//@ ghost gVerifiedKey Iface
+//@ func MakeSecretConnection
+//@   props C20
+//@   requires conn != nil && locPrivKey != nil
+//@   atcall VerifyBytes set gChallengeOK = result
+//@   atcall VerifyBytes set gVerifiedKey = arg_recv
+//@   onwrite SecretConnection.remPubKey assert [identity-is-the-key-that-signed-the-challenge] gChallengeOK && newval == gVerifiedKey
+//@   ensures  [no-connection-without-authentication] result0 != nil ==> result1 == nil && calls(VerifyBytes) == 1 && gChallengeOK
+
+// ---------------------------------------------------------------------------------------------
+// multiplexed channels: packets of at most 1024 bytes, reassembled up to the channel's capacity
+
+//@ func (*Channel).nextMsgPacket
+//@   props C20
+//@   requires ch != nil && len(ch.sending) > 0
+//@   assigns  ch.sending, ch.sendQueueSize
+//@   ensures  [packet-is-a-prefix-of-at-most-1024-bytes] len(result.Bytes) == ite(old(len(ch.sending)) < 1024, old(len(ch.sending)), 1024) && result.Bytes == old(ch.sending)[0:len(result.Bytes)]
+//@   ensures  [eof-exactly-on-the-last-packet] (result.EOF == 1) == (old(len(ch.sending)) <= 1024) && (result.EOF == 0 || result.EOF == 1)
+//@   ensures  [rest-stays-queued] len(ch.sending) == old(len(ch.sending)) - len(result.Bytes) && result.ChannelID == ch.id
+
+//@ func (*Channel).recvMsgPacket
+//@   props C20
+//@   requires ch != nil && ch.desc != nil
+//@   assigns  ch.recving
+//@   ensures  [over-capacity-is-rejected-unchanged] old(ch.desc.RecvMessageCapacity) < old(len(ch.recving)) + len(packet.Bytes) ==> result1 != nil && result0 == nil && ch.recving == old(ch.recving)
+//@   ensures  [eof-returns-the-whole-message] old(ch.desc.RecvMessageCapacity) >= old(len(ch.recving)) + len(packet.Bytes) && packet.EOF == 1 ==> result1 == nil && len(result0) == old(len(ch.recving)) + len(packet.Bytes) && len(ch.recving) == 0
+//@   ensures  [non-eof-accumulates] old(ch.desc.RecvMessageCapacity) >= old(len(ch.recving)) + len(packet.Bytes) && packet.EOF != 1 ==> result1 == nil && result0 == nil && len(ch.recving) == old(len(ch.recving)) + len(packet.Bytes)
